@@ -162,6 +162,10 @@ func init() {
 		"Symbolic": func(e *Engine, st *State, fn *ssa.Function, a []Value, ins ssa.Instruction) []*State {
 			return e.ret(st, e.tt.True)
 		},
+		"HostFS": func(e *Engine, st *State, fn *ssa.Function, a []Value, ins ssa.Instruction) []*State {
+			e.hostFS = true
+			return e.ret(st, Tuple{})
+		},
 		"NondetSources": func(e *Engine, st *State, fn *ssa.Function, a []Value, ins ssa.Instruction) []*State {
 			return e.ret(st, e.c64(len(st.nondetLog)))
 		},
